@@ -252,8 +252,8 @@ Definition c_alias_bp_uses (a : string) (t : tyx) : list use :=
   | t => c_bp_uses t
   end.
 
-Definition mk (k : dk) (n : ns) (x : string) (us : list use) : item := IDecl (mkDecl k n x us 0).
-Definition mkm (k : dk) (n : ns) (x : string) (us : list use) (m : nat) : item := IDecl (mkDecl k n x us m).
+Definition mk (k : dk) (n : ns) (x : string) (us : list use) : decl := mkDecl k n x us 0.
+Definition mkm (k : dk) (n : ns) (x : string) (us : list use) (m : nat) : decl := mkDecl k n x us m.
 
 (* ------------------------------------------------------------------------------------ *)
 (* Python                                                                                 *)
@@ -339,62 +339,62 @@ Definition go_path_of (j : nat) : string :=
   let g := getf s j in
   if String.eqb (o_gopkg (f_opts g)) "" then go_default_path (f_proto g) else o_gopkg (f_opts g).
 
-(* the result of a leaf: None = the renderer raises *)
-Definition leaf (b : blk) (fd : fdef) : option (list item) :=
+(* what one leaf block writes for one definition (a raising Python default contributes no uses:
+   [py_raises] below says when the renderer raises instead) *)
+Definition opt_uses (o : option (list use)) : list use := match o with Some l => l | None => [] end.
+
+Definition leaf (b : blk) (fd : fdef) : list decl :=
   let pth := fd_path fd in
   match fd_def fd with
   | DConst n v =>
       match b with
-      | H_Constant => Some [mk DkDefine NsMacro (dname LC KConstant (own_px LC) pth n) []]
-      | P_Constant => Some [mk DkPyAssign NsMod (dname LPy KConstant "" pth n) []]
-      | G_Constant => Some [mk DkGoConst NsMod (dname LGo KConstant "" pth n) []]
-      | _ => Some []
+      | H_Constant => [mk DkDefine NsMacro (dname LC KConstant (own_px LC) pth n) []]
+      | P_Constant => [mk DkPyAssign NsMod (dname LPy KConstant "" pth n) []]
+      | G_Constant => [mk DkGoConst NsMod (dname LGo KConstant "" pth n) []]
+      | _ => []
       end
   | DAlias n t =>
       let cn := dname LC KAlias (own_px LC) pth n in
       let pn := dname LPy KAlias "" pth n in
       let gn := dname LGo KAlias "" pth n in
       match b with
-      | H_AliasDef => Some [mk DkTypedef NsOrd cn (c_type_uses t)]
-      | H_AliasProcessorDeclaration => Some [mk DkProto NsOrd (c_alias_processor_name cn) []]
-      | H_AliasJsonFormatterDeclaration => Some [mk DkProto NsOrd (c_alias_json_formatter_name cn) []]
+      | H_AliasDef => [mk DkTypedef NsOrd cn (c_type_uses t)]
+      | H_AliasProcessorDeclaration => [mk DkProto NsOrd (c_alias_processor_name cn) []]
+      | H_AliasJsonFormatterDeclaration => [mk DkProto NsOrd (c_alias_json_formatter_name cn) []]
       | C_ArrayProcessorForAlias =>
-          Some (if is_arr t then [mk DkFunc NsOrd (c_array_processor_name_alias cn) (c_bp_uses (arr_elem t))] else [])
+          (if is_arr t then [mk DkFunc NsOrd (c_array_processor_name_alias cn) (c_bp_uses (arr_elem t))] else [])
       | C_ArrayJsonFormatterForAlias =>
-          Some (if is_arr t then [mk DkFunc NsOrd (c_array_json_formatter_name_alias cn) (c_bp_uses (arr_elem t))] else [])
-      | C_AliasProcessor => Some [mk DkFunc NsOrd (c_alias_processor_name cn) (c_alias_bp_uses cn t)]
-      | C_AliasJsonFormatter => Some [mk DkFunc NsOrd (c_alias_json_formatter_name cn) (c_alias_bp_uses cn t)]
-      | P_AliasDef => Some [mk DkPyAssign NsMod pn (py_type_uses true t)]
-      | P_AliasMethodProcessor => Some [mk DkPyDef NsMod (py_processor_name_alias pn) (py_proc_uses t)]
+          (if is_arr t then [mk DkFunc NsOrd (c_array_json_formatter_name_alias cn) (c_bp_uses (arr_elem t))] else [])
+      | C_AliasProcessor => [mk DkFunc NsOrd (c_alias_processor_name cn) (c_alias_bp_uses cn t)]
+      | C_AliasJsonFormatter => [mk DkFunc NsOrd (c_alias_json_formatter_name cn) (c_alias_bp_uses cn t)]
+      | P_AliasDef => [mk DkPyAssign NsMod pn (py_type_uses true t)]
+      | P_AliasMethodProcessor => [mk DkPyDef NsMod (py_processor_name_alias pn) (py_proc_uses t)]
       | P_AliasMethodDefaultFactory =>
-          match py_defval false t with
-          | Some us => Some [mk DkPyDef NsMod (py_default_factory_name pn) (mkUse NsMod "" pn true :: us)]
-          | None => None
-          end
-      | G_AliasDef => Some [mk DkGoType NsMod gn (go_type_uses t)]
-      | G_AliasMethodBpProcessor => Some [mk DkGoMethod NsMod (gn +++ ".BpProcessor") [mkUse NsMod "" gn false]]
-      | _ => Some []
+          [mk DkPyDef NsMod (py_default_factory_name pn) (mkUse NsMod "" pn true :: opt_uses (py_defval false t))]
+      | G_AliasDef => [mk DkGoType NsMod gn (go_type_uses t)]
+      | G_AliasMethodBpProcessor => [mk DkGoMethod NsMod (gn +++ ".BpProcessor") [mkUse NsMod "" gn false]]
+      | _ => []
       end
   | DEnum n w ms =>
       let cn := dname LC KEnum (own_px LC) pth n in
       let pn := dname LPy KEnum "" pth n in
       let gn := dname LGo KEnum "" pth n in
       match b with
-      | H_EnumDef => Some [mk DkTypedef NsOrd cn []]
+      | H_EnumDef => [mk DkTypedef NsOrd cn []]
       | H_EnumFieldList =>
-          Some (map (fun m => mk DkDefine NsMacro (dname LC KEnumField (own_px LC) pth (fst m)) []) ms)
-      | P_IntEnumFieldListWrapper => Some [mk DkPyClass NsMod pn []]
+          (map (fun m => mk DkDefine NsMacro (dname LC KEnumField (own_px LC) pth (fst m)) []) ms)
+      | P_IntEnumFieldListWrapper => [mk DkPyClass NsMod pn []]
       | P_EnumFieldListWrapper =>
-          Some (map (fun m => mk DkPyAssign NsMod (dname LPy KEnumField "" pth (fst m)) [mkUse NsMod "" pn true]) ms)
+          (map (fun m => mk DkPyAssign NsMod (dname LPy KEnumField "" pth (fst m)) [mkUse NsMod "" pn true]) ms)
       | P_EnumValueToNameMap =>
-          Some [mk DkPyAssign NsMod (upper_case (py_value_map_name_raw pn)) [mkUse NsMod "" pn true]]
-      | P_EnumMethodProcessor => Some [mk DkPyDef NsMod (py_processor_name_enum pn) []]
-      | G_EnumType => Some [mk DkGoType NsMod gn []]
+          [mk DkPyAssign NsMod (upper_case (py_value_map_name_raw pn)) [mkUse NsMod "" pn true]]
+      | P_EnumMethodProcessor => [mk DkPyDef NsMod (py_processor_name_enum pn) []]
+      | G_EnumType => [mk DkGoType NsMod gn []]
       | G_EnumFieldListWrapped =>
-          Some (map (fun m => mk DkGoConst NsMod (dname LGo KEnumField "" pth (fst m)) [mkUse NsMod "" gn false]) ms)
-      | G_EnumMethodBpProcessor => Some [mk DkGoMethod NsMod (gn +++ ".BpProcessor") [mkUse NsMod "" gn false]]
-      | G_EnumMethodString => Some [mk DkGoMethod NsMod (gn +++ ".String") [mkUse NsMod "" gn false]]
-      | _ => Some []
+          (map (fun m => mk DkGoConst NsMod (dname LGo KEnumField "" pth (fst m)) [mkUse NsMod "" gn false]) ms)
+      | G_EnumMethodBpProcessor => [mk DkGoMethod NsMod (gn +++ ".BpProcessor") [mkUse NsMod "" gn false]]
+      | G_EnumMethodString => [mk DkGoMethod NsMod (gn +++ ".String") [mkUse NsMod "" gn false]]
+      | _ => []
       end
   | DMsg n x _ fs =>
       let cn := dname LC KMessage (own_px LC) pth n in
@@ -405,51 +405,48 @@ Definition leaf (b : blk) (fd : fdef) : option (list item) :=
       let arrs := filter (fun fl => is_arr (fl_ty fl)) sf in
       let gm (suffix : string) := mk DkGoMethod NsMod (gn +++ "." +++ suffix) [mkUse NsMod "" gn false] in
       match b with
-      | H_MessageLengthMacro => Some [mk DkDefine NsMacro (size_constant_name (upper_case (snake_case cn))) []]
+      | H_MessageLengthMacro => [mk DkDefine NsMacro (size_constant_name (upper_case (snake_case cn))) []]
       | H_MessageStruct =>
-          Some [mkm DkStruct NsTag cn (flat_map (fun fl => c_type_uses (fl_ty fl)) sf) (length sf)]
-      | H_MessageEncoderFunctionDeclaration => Some [mk DkProto NsOrd (c_encoder_name cn) [tag]]
-      | H_MessageDecoderFunctionDeclaration => Some [mk DkProto NsOrd (c_decoder_name cn) [tag]]
-      | H_MessageJsonFormatterFunctionDeclaration => Some [mk DkProto NsOrd (c_json_name cn) [tag]]
-      | H_MessageProcessorDeclaration => Some [mk DkProto NsOrd (c_msg_proc cn) []]
-      | H_MessageBpJsonFormatterDeclaration => Some [mk DkProto NsOrd (c_msg_json cn) []]
+          [mkm DkStruct NsTag cn (flat_map (fun fl => c_type_uses (fl_ty fl)) sf) (length sf)]
+      | H_MessageEncoderFunctionDeclaration => [mk DkProto NsOrd (c_encoder_name cn) [tag]]
+      | H_MessageDecoderFunctionDeclaration => [mk DkProto NsOrd (c_decoder_name cn) [tag]]
+      | H_MessageJsonFormatterFunctionDeclaration => [mk DkProto NsOrd (c_json_name cn) [tag]]
+      | H_MessageProcessorDeclaration => [mk DkProto NsOrd (c_msg_proc cn) []]
+      | H_MessageBpJsonFormatterDeclaration => [mk DkProto NsOrd (c_msg_json cn) []]
       | C_ArrayProcessorForMessageFieldList =>
-          Some (map (fun fl => mk DkFunc NsOrd (c_array_processor_name_field cn (dec (fl_num fl)))
+          (map (fun fl => mk DkFunc NsOrd (c_array_processor_name_field cn (dec (fl_num fl)))
                                   (c_bp_uses (arr_elem (fl_ty fl)))) arrs)
       | C_ArrayJsonFormatterForMessageFieldList =>
-          Some (map (fun fl => mk DkFunc NsOrd (c_array_json_formatter_name_field cn (dec (fl_num fl)))
+          (map (fun fl => mk DkFunc NsOrd (c_array_json_formatter_name_field cn (dec (fl_num fl)))
                                   (c_bp_uses (arr_elem (fl_ty fl)))) arrs)
       | C_MessageFieldDescriptorsIniter =>
-          Some [mk DkFunc NsOrd (c_field_descriptors_initer_name cn) (tag :: flat_map (c_field_bp_uses cn) sf)]
+          [mk DkFunc NsOrd (c_field_descriptors_initer_name cn) (tag :: flat_map (c_field_bp_uses cn) sf)]
       | C_MessageProcessor =>
-          Some [mk DkFunc NsOrd (c_msg_proc cn) [tag; cuse NsOrd (c_field_descriptors_initer_name cn)]]
+          [mk DkFunc NsOrd (c_msg_proc cn) [tag; cuse NsOrd (c_field_descriptors_initer_name cn)]]
       | C_MessageBpJsonFormatter =>
-          Some [mk DkFunc NsOrd (c_msg_json cn) [tag; cuse NsOrd (c_field_descriptors_initer_name cn)]]
-      | C_MessageEncoder => Some [mk DkFunc NsOrd (c_encoder_name cn) [tag; cuse NsOrd (c_msg_proc cn)]]
-      | C_MessageDecoder => Some [mk DkFunc NsOrd (c_decoder_name cn) [tag; cuse NsOrd (c_msg_proc cn)]]
-      | C_MessageJsonFormatter => Some [mk DkFunc NsOrd (c_json_name cn) [tag; cuse NsOrd (c_msg_json cn)]]
-      | C_MessageEncoderOpMode => Some [mk DkFunc NsOrd (c_encoder_name cn) [tag]]
-      | C_MessageDecoderOpMode => Some [mk DkFunc NsOrd (c_decoder_name cn) [tag]]
+          [mk DkFunc NsOrd (c_msg_json cn) [tag; cuse NsOrd (c_field_descriptors_initer_name cn)]]
+      | C_MessageEncoder => [mk DkFunc NsOrd (c_encoder_name cn) [tag; cuse NsOrd (c_msg_proc cn)]]
+      | C_MessageDecoder => [mk DkFunc NsOrd (c_decoder_name cn) [tag; cuse NsOrd (c_msg_proc cn)]]
+      | C_MessageJsonFormatter => [mk DkFunc NsOrd (c_json_name cn) [tag; cuse NsOrd (c_msg_json cn)]]
+      | C_MessageEncoderOpMode => [mk DkFunc NsOrd (c_encoder_name cn) [tag]]
+      | C_MessageDecoderOpMode => [mk DkFunc NsOrd (c_decoder_name cn) [tag]]
       | P_Message =>
-          match opt_concat (map (fun fl => py_field_default (fl_ty fl)) sf) with
-          | Some dus =>
-              Some [mkm DkPyClass NsMod pn
-                        (flat_map (fun fl => py_type_uses true (fl_ty fl)) sf ++ dus ++
-                         flat_map (fun fl => py_proc_uses (fl_ty fl)) sf) (length sf)]
-          | None => None
-          end
-      | G_MessageStruct => Some [mkm DkGoType NsMod gn (flat_map (fun fl => go_type_uses (fl_ty fl)) sf) (length sf)]
-      | G_MessageSizeConst => Some [mk DkGoConst NsMod (size_constant_name (upper_case (snake_case gn))) []]
-      | G_MessageMethodSize => Some [gm "Size"]
-      | G_MessageMethodString => Some [gm "String"]
-      | G_MessageMethodEncode => Some [gm "Encode"]
-      | G_MessageMethodDecode => Some [gm "Decode"]
-      | G_MessageMethodBpProcessor => Some [gm "BpProcessor"]
-      | G_MessageMethodBpGetAccessor => Some [gm "BpGetAccessor"]
-      | G_MessageMethodBpSetByte => Some [gm "BpSetByte"]
-      | G_MessageMethodBpGetByte => Some [gm "BpGetByte"]
-      | G_MessageMethodBpProcessInt => Some [gm "BpProcessInt"]
-      | _ => Some []
+          [mkm DkPyClass NsMod pn
+               (flat_map (fun fl => py_type_uses true (fl_ty fl)) sf ++
+                flat_map (fun fl => opt_uses (py_field_default (fl_ty fl))) sf ++
+                flat_map (fun fl => py_proc_uses (fl_ty fl)) sf) (length sf)]
+      | G_MessageStruct => [mkm DkGoType NsMod gn (flat_map (fun fl => go_type_uses (fl_ty fl)) sf) (length sf)]
+      | G_MessageSizeConst => [mk DkGoConst NsMod (size_constant_name (upper_case (snake_case gn))) []]
+      | G_MessageMethodSize => [gm "Size"]
+      | G_MessageMethodString => [gm "String"]
+      | G_MessageMethodEncode => [gm "Encode"]
+      | G_MessageMethodDecode => [gm "Decode"]
+      | G_MessageMethodBpProcessor => [gm "BpProcessor"]
+      | G_MessageMethodBpGetAccessor => [gm "BpGetAccessor"]
+      | G_MessageMethodBpSetByte => [gm "BpSetByte"]
+      | G_MessageMethodBpGetByte => [gm "BpGetByte"]
+      | G_MessageMethodBpProcessInt => [gm "BpProcessInt"]
+      | _ => []
       end
   end.
 
@@ -463,8 +460,8 @@ Fixpoint expand (fuel : nat) (b : blk) : list blk :=
            end
   end.
 
-Definition def_blocks (b : blk) (fd : fdef) : option (list item) :=
-  opt_concat (map (fun lf => leaf lf fd) (expand 4 b)).
+Definition def_blocks (b : blk) (fd : fdef) : list decl :=
+  flat_map (fun lf => leaf lf fd) (expand 4 b).
 
 (* -F: `d.name not in filter_messages` compares the message's OWN name *)
 Definition passes_filter (flt : list string) (d : def) : bool :=
@@ -473,15 +470,14 @@ Definition passes_filter (flt : list string) (d : def) : bool :=
   | _ => existsb (String.eqb (def_name d)) flt
   end.
 
-(* BlockBoundDefinitionDispatcher.blocks *)
-Definition dispatcher (flt : list string) (b : blk) : option (list item) :=
-  opt_concat
-    (map (fun fd =>
-            match dispatch b (dkind_of (fd_def fd)) with
-            | Some t => if dispatch_filtered b && negb (passes_filter flt (fd_def fd)) then Some []
-                        else def_blocks t fd
-            | None => Some []
-            end) (flat_file f)).
+(* BlockBoundDefinitionDispatcher.blocks: what a dispatcher writes for one definition *)
+Definition dispatch_one (flt : list string) (b : blk) (fd : fdef) : list decl :=
+  match dispatch b (dkind_of (fd_def fd)) with
+  | Some t => if dispatch_filtered b && negb (passes_filter flt (fd_def fd)) then [] else def_blocks t fd
+  | None => []
+  end.
+Definition dispatcher (flt : list string) (b : blk) : list decl :=
+  flat_map (dispatch_one flt b) (flat_file f).
 
 Definition is_dispatcher (b : blk) : bool :=
   match b with
@@ -492,23 +488,23 @@ Definition is_dispatcher (b : blk) : bool :=
   end.
 
 (* blocks that do not depend on a definition *)
-Definition top_block (flt : list string) (b : blk) : option (list item) :=
-  if is_dispatcher b then dispatcher flt b
+Definition top_block (flt : list string) (b : blk) : list item :=
+  if is_dispatcher b then map IDecl (dispatcher flt b)
   else
-    Some match b with
-         | H_IncludeGuard => [mk DkDefine NsMacro (h_guard_macro (upper_case (snake_case (f_proto f)))) []]
-         | H_ImportList =>
-             map (fun mj => IImport "" (c_import_target (f_proto (getf s (snd mj)))) (snd mj)) (f_imports f)
-         | H_DefineMacroOpMode => [mk DkDefine NsMacro "BITPROTO_OPTIMIZATION_MODE" []]
-         | C_Include | C_IncludeOpMode => [IImport "" (out_filename (f_base f) ext_h) i]
-         | P_ImportChildProtoList =>
-             map (fun mj => IImport (fst mj) (py_module_of (snd mj)) (snd mj)) (f_imports f)
-         | G_ImportChildProtoList =>
-             map (fun mj => IImport (fst mj) (go_path_of (snd mj)) (snd mj)) (f_imports f)
-         | G_AvoidGeneralImportsNotUsed =>
-             [mk DkGoVar NsMod "formatInt" []; mk DkGoVar NsMod "jsonMarshal" []]
-         | _ => []
-         end.
+    match b with
+    | H_IncludeGuard => [IDecl (mk DkDefine NsMacro (h_guard_macro (upper_case (snake_case (f_proto f)))) [])]
+    | H_ImportList =>
+        map (fun mj => IImport "" (c_import_target (f_proto (getf s (snd mj)))) (snd mj)) (f_imports f)
+    | H_DefineMacroOpMode => [IDecl (mk DkDefine NsMacro "BITPROTO_OPTIMIZATION_MODE" [])]
+    | C_Include | C_IncludeOpMode => [IImport "" (out_filename (f_base f) ext_h) i]
+    | P_ImportChildProtoList =>
+        map (fun mj => IImport (fst mj) (py_module_of (snd mj)) (snd mj)) (f_imports f)
+    | G_ImportChildProtoList =>
+        map (fun mj => IImport (fst mj) (go_path_of (snd mj)) (snd mj)) (f_imports f)
+    | G_AvoidGeneralImportsNotUsed =>
+        [IDecl (mk DkGoVar NsMod "formatInt" []); IDecl (mk DkGoVar NsMod "jsonMarshal" [])]
+    | _ => []
+    end.
 
 Definition blocklist (t : target) : list blk :=
   match t with
@@ -517,8 +513,22 @@ Definition blocklist (t : target) : list blk :=
   | TgPy => p_blocklist | TgGo => g_blocklist
   end.
 
+Definition render_items (t : target) (flt : list string) : list item :=
+  flat_map (fun b => flat_map (top_block flt) (expand 4 b)) (blocklist t).
+
+(* the Python renderer raises IndexError (fields()[0]) while formatting a default value *)
+Definition py_raises (fd : fdef) : bool :=
+  match fd_def fd with
+  | DAlias _ t => match py_defval false t with None => true | Some _ => false end
+  | DMsg _ _ _ fs => existsb (fun fl => match py_field_default (fl_ty fl) with None => true | Some _ => false end) fs
+  | _ => false
+  end.
+
 Definition render (t : target) (flt : list string) : option (list item) :=
-  opt_concat (map (fun b => opt_concat (map (top_block flt) (expand 4 b))) (blocklist t)).
+  match t with
+  | TgPy => if existsb py_raises (flat_file f) then None else Some (render_items t flt)
+  | _ => Some (render_items t flt)
+  end.
 
 Definition ext_of (t : target) : string :=
   match t with TgH | TgHO => ext_h | TgC | TgCO => ext_c | TgPy => ext_py | TgGo => ext_go end.
@@ -551,14 +561,10 @@ Fixpoint exports (fuel : nat) (s : schema) (t : target) (flt : list string) (j :
   match fuel with
   | O => []
   | S k =>
-      match render s j (header_of t) flt with
-      | Some its =>
-          flat_map (fun it => match it with
-                              | IDecl d => [dkey d]
-                              | IImport _ _ j' => match lang_of t with LC => exports k s t flt j' | _ => [] end
-                              end) its
-      | None => []
-      end
+      flat_map (fun it => match it with
+                          | IDecl d => [dkey d]
+                          | IImport _ _ j' => match lang_of t with LC => exports k s t flt j' | _ => [] end
+                          end) (render_items s j (header_of t) flt)
   end.
 
 Definition fuel_of (s : schema) : nat := S (length s).
